@@ -253,6 +253,8 @@ func init() {
 			if pm != "" {
 				continue
 			}
+			// the derived builders themselves (conclusion of C17_derived_WT on the real FromAST output)
+			fmt.Fprintf(out, "wt %s %s\t%s\tok\t%s\n", virSchemas(cs.schemas), virBuilders(bs), goWTBits(cs.schemas, bs), c.String()+"derived")
 			rw, _, loadErr, decodeErr := loadVeneers(cs.files)
 			if loadErr != nil || decodeErr != nil {
 				continue
